@@ -12,10 +12,34 @@ def V(kind, **detail):
     return {"kind": kind, "detail": detail}
 
 
+# How directory symbolic links INSIDE a content tree are read by disk_files: "nofollow" (a link is neither a file nor
+# a directory of the payload) or "follow" (what the link leads to is content under the link's name - what the
+# creators do).  The statements do not say which; judges that generate such links accept either reading
+# (both_link_readings), for all other trees the two coincide.
+LINK_READING = ["nofollow"]
+
+
+def both_link_readings(check, *args):
+    """Violations of `check` under the reading that fits best: none if either reading is satisfied, otherwise those
+    under the 'follow' reading."""
+    old = LINK_READING[0]
+    try:
+        LINK_READING[0] = "follow"
+        v_follow = check(*args)
+        if not v_follow:
+            return []
+        LINK_READING[0] = "nofollow"
+        v_no = check(*args)
+        return [] if not v_no else v_follow
+    finally:
+        LINK_READING[0] = old
+
+
 def disk_files(root):
     """{relpath components tuple(bytes): bytes content} for a directory; for a
     file: {(): content}."""
     out = {}
+    follow = LINK_READING[0] == "follow"
     if os.path.isfile(root):
         with open(root, "rb") as fd:
             out[()] = fd.read()
@@ -26,9 +50,9 @@ def disk_files(root):
             ents = sorted(it, key=lambda e: e.name)
         for e in ents:
             comps = prefix + (os.fsencode(e.name),)
-            if e.is_dir(follow_symlinks=False):
+            if e.is_dir(follow_symlinks=follow) and len(comps) < 80:
                 walk(e.path, comps)
-            elif e.is_file(follow_symlinks=False):
+            elif e.is_file(follow_symlinks=follow):
                 with open(e.path, "rb") as fd:
                     out[comps] = fd.read()
     walk(root, ())
